@@ -316,6 +316,7 @@ func checkC02(c *Ctx) {
 	checkLineSetReplaces(c, "C02.set-replaces")
 	checkC02TrimAndQuote(c)
 	checkReturnedLine(c, "C02.returned-line")
+	checkRound5Small(c, "C02")
 }
 
 var utf8Decoders = []string{"unicode/utf8.FullRune", "unicode/utf8.DecodeRune", "unicode/utf8.FullRuneInString", "unicode/utf8.DecodeRuneInString", "unicode/utf8.DecodeLastRune", "unicode/utf8.RuneLen"}
